@@ -85,9 +85,20 @@ func (h OperatorHooksWrapper) AfterOperatorKeyRemovalInitiated(
 		if found {
 			h.keeper.SetOptOutInformation(ctx, operator)
 		} else {
-			h.keeper.operatorKeeper.DeleteOperatorAddressForChainIDAndConsAddr(
-				ctx, chainID, consAddr,
-			)
+			// the key never became active, so there is nothing to unbond and no epoch at which
+			// the removal would be completed later. complete it right away (this also deletes
+			// the reverse lookup); otherwise the operator stays marked as "removing key" forever,
+			// with no opt out finish epoch, and every later undelegation from it fails.
+			if err := h.keeper.operatorKeeper.CompleteOperatorKeyRemovalForChainID(
+				ctx, operator, chainID,
+			); err != nil {
+				h.keeper.Logger(ctx).Error(
+					"error completing operator key removal", "error", err,
+				)
+				h.keeper.operatorKeeper.DeleteOperatorAddressForChainIDAndConsAddr(
+					ctx, chainID, consAddr,
+				)
+			}
 		}
 	}
 }
